@@ -33,9 +33,10 @@ PROPS = {
                      "MRL.C02A.C02_crash_atomic", "MRL.C02A.C02_crash_atomic_exact", "MRL.C02A.C02_second_crash",
                      "MRL.C02A.C02_second_crash_exact", "MRL.C02A.C02_recovered_usable_partial", "MRL.C02A.clean_crash_points",
                      "MRL.C02.C02_torn_tail", "MRL.C02.C02_resume", "MRL.C02.C02_crash", "MRL.C02.resume_nonvacuous",
-                     "MRL.C03.unlink_after_sync", "MRL.C03.flush_then_unlink_image", "MRL.C01R.C01_restart_exact"],
+                     "MRL.C03.unlink_after_sync", "MRL.C03.flush_then_unlink_image", "MRL.C01R.C01_restart_exact",
+                     "MRL.Glue.applyOsOps_coalesce", "MRL.Glue.sync_disk", "MRL.Glue.runCrash_image", "MRL.Glue.prun_incremental", "MRL.Glue.cache_stable"],
         "examples": 4,
-        "modules": ["MRL.Props.C02", "MRL.Props.C03", "MRL.Props.C01Restart", "MRL.Props.C02Atomic", "MRL.Props.C02Usable"],
+        "modules": ["MRL.Props.C02", "MRL.Props.C03", "MRL.Props.C01Restart", "MRL.Props.C02Atomic", "MRL.Props.C02Usable", "MRL.Proofs.DriverGlue"],
         "kinds": "ODSFRE",
         "campaigns": {"quick": [("crash", 20, 60)], "thorough": [("crash", 200, 120), ("crash-policies", 100, 100)]},
         "rule": "histories under a flush-per-operation policy; the effect trace is turned into OS-level operations through the BufWriter model; "
@@ -55,9 +56,11 @@ PROPS = {
                      "MRL.C03P.C03_posix", "MRL.P.power_reduction", "MRL.P.power_prefix", "MRL.P.op_boundaryP", "MRL.P.pd_effsD",
                      "MRL.C03P.always_tail", "MRL.C03P.onDelay_tail", "MRL.C03P.opsP_erase", "MRL.C03P.powerImage_empty_no_syncDir",
                      "MRL.C03PX.C03_posix_reachX", "MRL.C03PX.C03_posix_reopen", "MRL.C03PX.C03_posixX_cinvx", "MRL.C03PX.reachX_history",
-                     "MRL.C03PX.effsX_calls", "MRL.C03PX.unlink_prefix_window", "MRL.PX.power_reductionX", "MRL.PX.runX_cut"],
+                     "MRL.C03PX.effsX_calls", "MRL.C03PX.unlink_prefix_window", "MRL.PX.power_reductionX", "MRL.PX.runX_cut",
+                     "MRL.C03PD.C03_posix_dir_partial", "MRL.C03PD.powerImageD_is_cut", "MRL.C03PD.powerImageD_all",
+                     "MRL.C03PD.readd_gc", "MRL.C03PD.readd_step", "MRL.C03PD.readd_restart", "MRL.C03PD.readd_agree"],
         "examples": 4,
-        "modules": ["MRL.Props.C03", "MRL.Props.C02", "MRL.Props.C03Durable", "MRL.Props.C03Posix", "MRL.Props.C03PosixX"],
+        "modules": ["MRL.Props.C03", "MRL.Props.C02", "MRL.Props.C03Durable", "MRL.Props.C03Posix", "MRL.Props.C03PosixX", "MRL.Props.C03PosixDir", "MRL.Props.C03PosixDirFull"],
         "kinds": "ODSFRE",
         "campaigns": {"quick": [("crash-policies", 20, 60)], "thorough": [("crash-policies", 240, 120)]},
         "rule": "as C02 under all seven policies (DoNothing, OnDelay never/always due x Flush/FlushAndFsync, Always x 2) with explicit persist "
@@ -84,22 +87,29 @@ PROPS = {
         "theorems": ["MRL.C05.C05_refines", "MRL.C05.C05_history", "MRL.C05.C05_history_pointwise", "MRL.C05.range_eq_filter",
                      "MRL.C05.lastPosition_eq", "MRL.C05.lastRecord_eq", "MRL.C05.get_abs", "MRL.C05.Inv_empty",
                      "MRL.C05I.getRange_split", "MRL.C05I.absI_appendRecordI", "MRL.C05I.absI_truncateHeadI", "MRL.C05I.rangeI_eq",
-                     "MRL.C05I.lastRecordI_eq", "MRL.C05I.repInv_appendRecordI", "MRL.C05I.repInv_truncateHeadI", "MRL.C05I.sizeI_eq"],
+                     "MRL.C05I.lastRecordI_eq", "MRL.C05I.repInv_appendRecordI", "MRL.C05I.repInv_truncateHeadI", "MRL.C05I.sizeI_eq",
+                     "MRL.C05B.stepP_ok", "MRL.C05B.stepPanics_iff", "MRL.C05B.stepP_agrees", "MRL.C05B.stepP_agrees_cur", "MRL.C05B.step_posBnd",
+                     "MRL.C05B.run_no_panic", "MRL.C05B.fresh_no_panic", "MRL.C05B.truncate_at_max_panics", "MRL.C05B.append_at_max_panics",
+                     "MRL.C05B.append_serialize_panics", "MRL.C05B.witness_truncate_max", "MRL.C05B.witness_append_max", "MRL.C05B.witness_implicit_max"],
         "examples": 6,
-        "modules": ["MRL.Props.C05", "MRL.Props.C05Impl"],
-        "kinds": "RSG",
-        "campaigns": {"quick": [("ops", 24, 110), ("edge", 4, 0)], "thorough": [("ops", 300, 220), ("policy-ops", 100, 200), ("edge", 32, 0)]},
+        "modules": ["MRL.Props.C05", "MRL.Props.C05Impl", "MRL.Props.C05Bounds"],
+        "kinds": "RSGE",
+        "campaigns": {"quick": [("ops", 24, 110), ("edge", 16, 0)], "thorough": [("ops", 300, 220), ("policy-ops", 100, 200), ("edge", 300, 0)]},
         "rule": "ops campaign: every call outcome, the full observable state after every call and every range result (all 9 bound shapes drawn "
                 "around existing positions) compared with the Rust copy of the specification and with the Lean model; edge campaign: positions "
-                "at the top of the u64 range (known finding F4)",
-        "assumptions": ["positions < 2^64-1 (Fits); the in-memory ring buffer offsets are not modelled (payload kept per record)"],
+                "2^64-4..2^64-1 in truncate bounds, explicit and implicit append positions, batches of 0-3 records: which calls panic, what "
+                "they wrote before panicking and the state afterwards are compared with the model's panic-instrumented twin Log.stepP "
+                "(known finding F4: the panics themselves)",
+        "assumptions": ["positions < 2^64-1 for the refinement theorem (run_no_panic: guaranteed for histories with positions < 2^62); at 2^64-1 the checked build panics exactly where Log.stepP says (F4); release builds wrap silently (not modelled)"],
     },
     "C06": {
         "theorems": ["MRL.C06.filesOk_step", "MRL.C06.filesOk_run", "MRL.C06.C06_reclaim", "MRL.C06.C06_truncate", "MRL.C06.C06_delete",
                      "MRL.C06.C06_open", "MRL.C06.no_premature_release", "MRL.C17.files_accounted",
-                     "MRL.C06R.filesOk_reach", "MRL.C06R.C06_reach_open", "MRL.C06R.C06_reach_reclaim"],
+                     "MRL.C06R.filesOk_reach", "MRL.C06R.C06_reach_open", "MRL.C06R.C06_reach_reclaim",
+                     "MRL.C06X.filesOkX_reachX", "MRL.C06X.C06_crash_step", "MRL.C06X.C06_crash_reclaim", "MRL.C06X.C06_crash_open",
+                     "MRL.C06X.C06_crash_recover", "MRL.C06X.C06_crash2_recover", "MRL.C06X.filesOk_fails", "MRL.C06X.no_premature_release"],
         "examples": 2,
-        "modules": ["MRL.Props.C06", "MRL.Props.C17", "MRL.Props.C06Restart"],
+        "modules": ["MRL.Props.C06", "MRL.Props.C17", "MRL.Props.C06Restart", "MRL.Props.C06Crash"],
         "kinds": "FDE",
         "campaigns": {"quick": [("ops", 24, 110)], "thorough": [("ops", 300, 220), ("policy-ops", 100, 200)]},
         "rule": "ops campaign; after every truncate/delete/open: the directory listing is a contiguous run ending at the file being written, no "
@@ -140,9 +150,10 @@ PROPS = {
         "theorems": ["MRL.C09.C09_one_frame", "MRL.C09.damaged_buffers", "MRL.C09.undamaged", "MRL.C09.framesOf_is_layout",
                      "MRL.C12.assemble_whole_entry",
                      "MRL.C09R.C09_drop_one", "MRL.C09R.C09_drop_one_run", "MRL.C09R.C09_end_to_end",
-                     "MRL.C09V.C09_recover_one_frame", "MRL.C09V.C09_recover_one_frame_all"],
+                     "MRL.C09V.C09_recover_one_frame", "MRL.C09V.C09_recover_one_frame_all",
+                     "MRL.C09X.C09_crash_one_frame", "MRL.C09X.C09_crash_one_frame_reachX", "MRL.C09X.C09_drop_one_crash", "MRL.LR.reachXR_journal"],
         "examples": 2,
-        "modules": ["MRL.Props.C09", "MRL.Props.C12", "MRL.Props.C09Replay", "MRL.Props.C08Recover", "MRL.Props.C09Close"],
+        "modules": ["MRL.Props.C09", "MRL.Props.C12", "MRL.Props.C09Replay", "MRL.Props.C08Recover", "MRL.Props.C09Close", "MRL.Props.C09Crash"],
         "kinds": "ODSN",
         "campaigns": {"quick": [("damage-aimed", 16, 70), ("bytes", 12, 120)], "thorough": [("damage-aimed", 240, 120), ("bytes", 150, 250)]},
         "rule": "aimed damage: a traced frame still on disk, alteration (bit flip / garbage / inverted byte) confined to its checksum or payload "
@@ -158,9 +169,11 @@ PROPS = {
                      "MRL.C10A.writeEntry_asserts", "MRL.C10A.recover_asserts", "MRL.C10A.decode_name_lt", "MRL.C10A.step_off_le", "MRL.C10A.oversize_assert_fires",
                      "MRL.C10V.recoverC_asserts", "MRL.C10V.recoverC_no_panic", "MRL.C10V.clipImage_noOversize", "MRL.C10V.clipImage_id",
                      "MRL.C10V.recoverC_eq_recover", "MRL.C10V.reach_noOversize", "MRL.C10V.reachD_noOversize", "MRL.C10V.crash_noOversize",
-                     "MRL.C10V.crash2_noOversize", "MRL.C10V.recoverC_reach", "MRL.C10V.recoverC_reachD", "MRL.C10V.recoverC_crash", "MRL.C10V.recoverC_crash2"],
+                     "MRL.C10V.crash2_noOversize", "MRL.C10V.recoverC_reach", "MRL.C10V.recoverC_reachD", "MRL.C10V.recoverC_crash", "MRL.C10V.recoverC_crash2",
+                     "MRL.C10M.recover_payload_bounded", "MRL.C10M.recover_records_bounded", "MRL.C10M.recover_used_bounded", "MRL.C10M.recoverC_bounded",
+                     "MRL.C10M.padding_example"],
         "examples": 3,
-        "modules": ["MRL.Props.C10", "MRL.Props.C11", "MRL.Props.C08", "MRL.Props.C10Asserts", "MRL.Props.C10Oversize", "MRL.Props.C10Reach"],
+        "modules": ["MRL.Props.C10", "MRL.Props.C11", "MRL.Props.C08", "MRL.Props.C10Asserts", "MRL.Props.C10Oversize", "MRL.Props.C10Reach", "MRL.Props.C10Memory"],
         "kinds": "ODSNK",
         "campaigns": {"quick": [("damage", 12, 70), ("bytes", 16, 120), ("edge", 4, 0), ("oversize", 8, 0)],
                       "thorough": [("damage", 200, 120), ("bytes", 300, 300), ("names", 60, 100), ("edge", 32, 0), ("oversize", 96, 0)]},
@@ -188,9 +201,11 @@ PROPS = {
                      "MRL.C12.replay_batch_suffix", "MRL.C12.batch_suffix_fresh", "MRL.C12.batch_all_or_nothing",
                      "MRL.C12.assemble_whole_entry",
                      "MRL.C12K.C12_crash_batch_atomic", "MRL.C12K.C12_crash_no_partial_batch",
-                     "MRL.C12V.C12_recover_damage"],
-        "examples": 5,
-        "modules": ["MRL.Props.C12", "MRL.Props.C12Compose", "MRL.Props.C12Crash", "MRL.Props.C08Recover"],
+                     "MRL.C12V.C12_recover_damage",
+                     "MRL.C12X.C12_crash_damage", "MRL.C12X.C12_crash_restart", "MRL.C12X.C12_crash_damage_reachX", "MRL.C12X.no_hole",
+                     "MRL.C12X.undelivered_nothing", "MRL.C12X.C12_crash_no_hole"],
+        "examples": 6,
+        "modules": ["MRL.Props.C12", "MRL.Props.C12Compose", "MRL.Props.C12Crash", "MRL.Props.C08Recover", "MRL.Props.C12CrashDamage"],
         "kinds": "ODSN",
         "campaigns": {"quick": [("crash", 10, 60), ("damage", 10, 70), ("bytes", 12, 120)], "thorough": [("crash-policies", 150, 110), ("damage", 150, 110), ("bytes", 150, 250)]},
         "rule": "crash and damage campaigns with batches of 2-6 records sized to span blocks and files; oracle: for every batch whose queue "
